@@ -67,6 +67,7 @@ type Property struct {
 	Exhaustive  bool
 	BatchSize   int
 	Parallel    int           // max worker processes (default 16)
+	WorkerProcs int           // GOMAXPROCS of a worker (0 = 2; -1 = leave alone)
 	CaseTimeout time.Duration // watchdog per case (never a verdict by itself)
 	Env         func(c Case) []string
 	Gen         func(g *GenCtx) []Case
